@@ -178,7 +178,16 @@ func init() {
 						begin(line)
 						obj := typeCtors[t.ID]()
 						d := goDecInto(obj, data, m, true)
+						// TotalAlloc counts every goroutine: confirm a large reading by re-measuring (minimum of up to 4 runs)
+						for retry := 0; retry < 3 && d.Alloc > 2048+16*uint64(len(data)); retry++ {
+							d2 := goDecInto(typeCtors[t.ID](), data, m, true)
+							if d2.Alloc < d.Alloc {
+								d.Alloc = d2.Alloc
+							}
+						}
 						o.emit(line, d.Line(), fmt.Sprintf("alloc:%d:%s:%s:%d", t.ID, d.Class, lenClass(len(data)), m.Spare), true)
+						// the cost model's predicted allocation vs the measured one (one-sided: measured <= 4*predicted + 4096)
+						o.emit(fmt.Sprintf("cost %d %s", t.ID, hexOf(data)), fmt.Sprintf("ok | %d", d.Alloc), fmt.Sprintf("cost:%d:%s", t.ID, d.Class), true)
 						o.stat("dec-" + d.Class)
 						if d.Class == "panic" {
 							continue // C09's subject
